@@ -41,7 +41,7 @@ VERDICT_ERRORS = (ValueError, IndexError, TypeError, KeyError, ZeroDivisionError
 RULE = ('all directed graphs n<=3 and undirected graphs n=4 (quick: 3 sampled seedings per n<=3 graph, 12 sampled n=4 graphs with 10 '
         'seedings each; thorough: all graphs, all seedings), graphs on 4..7 nodes with two or three seeds (several adjacent nodes to update) with unequal weights x seedings over {-1,a,b[,c]} with at least two classes x weighted/unweighted, '
         'Propagation and DiffusionClassifier on each; structured random graphs n<=12 (undirected, directed, bipartite, disconnected, '
-        'unequal dyadic weights, stored zeros, duplicate entries) x seeds as array/list/dict x node_order x n_iter x centering x scale x '
+        'unequal dyadic weights, stored zeros, duplicate entries) x seeds as array/list/dict (dicts inserted in shuffled / descending key order) x node_order x n_iter x centering x scale x '
         'force_bipartite x n_neighbors x threshold x solver; direct calls of vote_update with labels >= n and nnz < n; integer '
         'embeddings with ties for the nearest-neighbour cores; random label vectors for the metrics. A case is non-trivial when the '
         'graph has an edge, the seeds carry at least two classes and at least two nodes are not seeds (Propagation, Diffusion; metrics: both '
@@ -114,14 +114,21 @@ def seed_arg(s):
     return np.array(s['vals'], dtype=int)
 
 
-def mk_seed(form, vals):
+def mk_seed(form, vals, rng=None):
+    """Seeds in one of the three accepted forms. A dict is built in a *shuffled* insertion order when `rng` is given: Python
+    dicts keep insertion order and get_values pairs keys() with values(), so the order of insertion must not matter."""
     vals = [int(v) for v in vals]
     if form == 'dict' and not any(v >= 0 for v in vals):
         form = 'list'          # get_values refuses an empty dict (np.min of an empty array): not a seed set
     if form == 'dict':
         # a dict may also carry negative values (ignored by the library with a warning): keep the first one
         neg = [i for i, v in enumerate(vals) if v < 0][:1] if len(vals) % 3 == 0 else []
-        return {'form': 'dict', 'items': [[i, v] for i, v in enumerate(vals) if v >= 0 or i in neg]}
+        items = [[i, v] for i, v in enumerate(vals) if v >= 0 or i in neg]
+        if rng is not None:
+            rng.shuffle(items)
+            if len(items) >= 2 and rng.random() < 0.5:
+                items.sort(key=lambda kv: -kv[0])          # strictly descending keys
+        return {'form': 'dict', 'items': items}
     return {'form': form, 'vals': vals}
 
 
@@ -1028,7 +1035,7 @@ def _form(rng):
 
 
 def _seed_kw_square(rng, v, form=None):
-    return {'labels': mk_seed(form or _form(rng), v)}
+    return {'labels': mk_seed(form or _form(rng), v, rng)}
 
 
 def _seed_kw_bip(rng, nr, nc, vr, vc):
@@ -1036,12 +1043,12 @@ def _seed_kw_bip(rng, nr, nc, vr, vc):
     mode = rng.choice(['both', 'both', 'row', 'labels', 'labels+col'])
     if mode == 'labels+col':
         # `labels` is an alias of `labels_row` for a bipartite input and is stacked with `labels_col`
-        return {'labels': mk_seed(_form(rng), vr), 'labels_col': mk_seed(_form(rng), vc)}
+        return {'labels': mk_seed(_form(rng), vr, rng), 'labels_col': mk_seed(_form(rng), vc, rng)}
     if mode == 'both':
-        return {'labels_row': mk_seed(_form(rng), vr), 'labels_col': mk_seed(_form(rng), vc)}
+        return {'labels_row': mk_seed(_form(rng), vr, rng), 'labels_col': mk_seed(_form(rng), vc, rng)}
     if mode == 'row':
-        return {'labels_row': mk_seed(_form(rng), vr)}
-    return {'labels': mk_seed(_form(rng), vr)}
+        return {'labels_row': mk_seed(_form(rng), vr, rng)}
+    return {'labels': mk_seed(_form(rng), vr, rng)}
 
 
 def _is_symmetric(es):
@@ -1162,6 +1169,12 @@ def gen_jobs(ctx, scale=1.0, mode='run'):
         if rng.random() < 0.15:
             v = [(-2 if x == -1 and rng.random() < 0.5 else x) for x in v]      # negative labels other than -1
         kw = _seed_kw_square(rng, v)
+        if t % 3 == 0:
+            # the same seeds once as a dict inserted in descending key order and once as an array: the answers must be
+            # those of the same model input
+            kw = {'labels': mk_seed('dict', v, rng)}
+            jobs.append(_prop_job(rng, g, {'labels': mk_seed('arr', v)}, weighted=True, order=None, n_iter=-1))
+            ctx.count('seeds:dict-and-array')
         ctx.count('graph:free-nodes')
         for weighted in (True, False):
             jobs.append(_prop_job(rng, g, kw, weighted=weighted,
@@ -1237,7 +1250,7 @@ def gen_jobs(ctx, scale=1.0, mode='run'):
                 continue
             g = gdesc(_csr(nr, es, [rng.choice(WEIGHTS) for _ in es], m=nc))
             vc = _rand_seeding(rng, nc, p_seed=0.7) if nc >= 2 else [1]
-            kw = {'labels_col': mk_seed(_form(rng), vc)}
+            kw = {'labels_col': mk_seed(_form(rng), vc, rng)}
             ctx.count('graph:column-seeds-only')
             jobs.append(_prop_job(rng, g, kw, weighted=rng.random() < 0.6, order=rng.choice([None, 'random']), n_iter=-1))
             jobs.append({'kind': 'diff', 'graph': g, 'n_iter': rng.choice([1, 3]), 'centering': rng.random() < 0.6,
